@@ -745,6 +745,8 @@ class Program:
         self.bodies_as_written = dict(self.bodies)
         for p, r in (facts.get("bodies_before_inlining") or {}).items():
             self.bodies_as_written[p] = Body(p, r, self)
+        for p, r in (facts.get("bodies_absorbed") or {}).items():
+            self.bodies_as_written[p] = Body(p, r, self)
         self.impls = facts["impls"]
         self.structs = facts.get("structs", {})
         self.trait_impls = defaultdict(list)  # trait method path -> [impl method path]
@@ -902,11 +904,12 @@ class Program:
             self._reach[key] = res
         return res
 
-    def callers_of(self, pred):
-        """All call sites in the crate matching pred (direct match only)."""
+    def callers_of(self, pred, as_written=False):
+        """All call sites in the crate matching pred (direct match only). as_written: in the function-at-a-time view
+        (who-may-call rules: a helper that was inlined into its callers still has its callers there)."""
         m = matcher(pred)
         out = []
-        for b in self.bodies.values():
+        for b in (self.bodies_as_written if as_written else self.bodies).values():
             for cs in b.calls():
                 if m(cs):
                     out.append(cs)
